@@ -47,9 +47,9 @@ func vASCII(b []byte) {
 
 // Any text of up to 7 ASCII bytes against any prior value of the target.
 //
-//verif: prop=C20 bounds="level text of n<=7 symbolic ASCII bytes (quick: n<=5 and n=7 via the thorough tier), prior target value any int8; non-ASCII text outside the claim"
+//verif: prop=C20 bounds="level text of n<=8 symbolic ASCII bytes (one more than the longest name; thorough: n<=10), prior target value any int8; non-ASCII text outside the claim"
 func VC20Unmarshal() {
-	n := vrt.IntRange("len", 0, vrt.Pick(5, 7))
+	n := vrt.IntRange("len", 0, vrt.Pick(8, 10))
 	text := vrt.Bytes("text", n)
 	vASCII(text)
 	prior := Level(vrt.Int8("prior"))
@@ -69,9 +69,9 @@ func VC20Unmarshal() {
 	}
 }
 
-//verif: prop=C20 bounds="ParseLevel and Level.Set (flag) on n<=5 symbolic ASCII bytes"
+//verif: prop=C20 bounds="ParseLevel and Level.Set (flag) on n<=8 symbolic ASCII bytes (thorough: 9)"
 func VC20ParseSet() {
-	n := vrt.IntRange("len", 0, 5)
+	n := vrt.IntRange("len", 0, vrt.Pick(8, 9))
 	text := vrt.String("text", n)
 	vASCII([]byte(text))
 	want, ok := vRefLevel([]byte(text))
